@@ -32,9 +32,7 @@ def caseLtFloat (n v : Float) (impl : Sexp) : Verdict :=
   verdict (Sexp.beq model impl) (Sexp.beq spec impl) "wrong-value" model
 
 def caseEvery (n v : Nat) (impl : Sexp) : Verdict :=
-  let model := match everyN n v with
-    | .ok b => tag "r" [ofBool b]
-    | .panic => .atom "panic"
+  let model := tag "r" [ofBool (everyN n v)]
   -- property: true exactly on multiples of n (0 ∣ v ↔ v = 0)
   let spec := tag "r" [ofBool (if n == 0 then v == 0 else v % n == 0)]
   let cls := match impl with
